@@ -218,6 +218,12 @@ class Driver:
         """degree / predicate / lookup queries on one node"""
         return self.dump_node(u)
 
+    def op_degq(self, u):
+        r = Ref(self.nodes[u])
+        if self.directed:
+            return [self.node_call('out_degree', [r]), self.node_call('in_degree', [r])]
+        return [self.node_call('degree', [r])]
+
     def op_clone_drop(self, u):
         t = []
         self.handle(['clone', u], t)
@@ -638,6 +644,47 @@ class Driver:
     def leak_report(self):
         """(strong, weak) counts of every node allocation; all zero once every handle is gone"""
         return [[b.strong, b.weak] for b in self.boxes]
+
+    # ---- concurrency (C17) ------------------------------------------------------------------
+    def lock_owner(self, lock):
+        for i, c in enumerate(self.nodes):
+            try:
+                if c.v.f[0].box.cell.v.f[2] is lock:
+                    return i
+            except Exception:
+                pass
+        return None
+
+    def op_threads(self, scripts):
+        """run each script (a list of steps) in its own logical thread under every schedule"""
+        from engine import Sched
+        results = [[] for _ in scripts]
+
+        def mk(i, script):
+            def body():
+                for st in script:
+                    results[i].append(self.step(st))
+                return True
+            return body
+        sched = Sched(self.ex, [mk(i, s) for i, s in enumerate(scripts)], preemption_bound=self.scen.get('preemption_bound'))
+        # resolve lock identities to node indices while the locks are still reachable
+        outcome = sched.run()
+        for t in sched.threads:
+            if t.exc is not None:
+                results[t.id - 1].append({t.exc[0]: t.exc[1]})
+                if outcome == 'ok':
+                    outcome = t.exc[0]
+        schedule = []
+        ids = {}
+        for c in self.nodes:
+            try:
+                ids[id(c.v.f[0].box.cell.v.f[2])] = self.nodes.index(c)
+            except Exception:
+                pass
+        for ent in sched.schedule:
+            schedule.append(ent[:3] + [ids.get(ent[3])] if len(ent) > 3 else ent)
+        blocked = [[t.id, t.waiting[1], ids.get(id(t.waiting[0]))] for t in sched.threads if t.state in ('queued', 'at_lock') and t.waiting]
+        return {'outcome': outcome, 'returns': results, 'schedule': schedule, 'blocked': blocked}
 
     def err_name(self, e):
         vs = self.ex.ix.enums.get(('error', 'Error'))
